@@ -126,13 +126,18 @@ def judge(op, red, km, xs, outs):
     """outs: list of (number of items seen when the value was emitted, python value or None for an error)"""
     n = len(xs)
     fr = [Fraction(x) for x in xs]
+    # exact prefix statistics, computed once (O(n)); S_m = sum x^2 - (sum x)^2 / m exactly
+    cs, cabs, csq, cmin, cmax = [Fraction(0)], [Fraction(0)], [Fraction(0)], [None], [None]
+    for x in fr:
+        cs.append(cs[-1] + x)
+        cabs.append(cabs[-1] + abs(x))
+        csq.append(csq[-1] + x * x)
+        cmin.append(x if cmin[-1] is None or x < cmin[-1] else cmin[-1])
+        cmax.append(x if cmax[-1] is None or x > cmax[-1] else cmax[-1])
     for m, v in outs:
-        pre = fr[:m]
-        s = sum(pre, Fraction(0))
-        sabs = sum((abs(x) for x in pre), Fraction(0))
-        msq = sum((x * x for x in pre), Fraction(0))
+        s, sabs, msq = cs[m], cabs[m], csq[m]
         mean = s / m if m else Fraction(0)
-        S = sum(((x - mean) ** 2 for x in pre), Fraction(0))
+        S = (msq - s * s / m) if m else Fraction(0)
         ok = True
         exact = None
         if op == 'sum':
@@ -147,7 +152,7 @@ def judge(op, red, km, xs, outs):
             if m == 0:
                 ok = v is None
             else:
-                exact = min(pre) if op == 'min' else max(pre)
+                exact = cmin[m] if op == 'min' else cmax[m]
                 ok = v is not None and Fraction(v) == exact
         else:
             pop = op in ('fvariance', 'fstddev')
